@@ -388,6 +388,15 @@ NULL = _Null()
 #    #XXX: adds a new dependency
 #    from ordereddict import OrderedDict as odict
 
+def _kwonly(func):
+    """get the names of the keyword-only parameters of a function"""
+    try:
+        while not inspect.isroutine(func) and hasattr(func, 'func'):
+            func = func.func # then it could be a partial...
+        return tuple(inspect.getfullargspec(func).kwonlyargs)
+    except (TypeError, AttributeError):
+        return ()
+
 from copy import copy
 def _keygen(func, ignored, *args, **kwds):
     """generate a 'key' from the (*args,**kwds) suitable for use in caching
@@ -471,8 +480,9 @@ def _keygen(func, ignored, *args, **kwds):
     _keys = tuple(user_kwds.keys()) + explicitly_named
     user_kwds.update(dict([(k,NULL) for k in names_to_ignore if k in _keys]))
     # if ignoring **kwds, then pop all not in explicitly_named
-    if varkwds_to_ignore:
-        [user_kwds.pop(k) for k in kwds if k not in explicitly_named]
+    if varkwds_to_ignore: # (keyword-only parameters are named, not varkwds)
+        [user_kwds.pop(k) for k in kwds if k not in explicitly_named \
+                                       and k not in _kwonly(func)]
 
     # NULL out args that are NULL'ed as kwds, and vice-versa 
 #   if crossref:
